@@ -49,6 +49,9 @@ CHECKS = {
  "C17": ("fault_enumeration", "exhaustive single-fault (and pair-fault) injection over the request stream of every history",
    "for every history of the reduced alphabet at the depth bound: one run per backend request failing (all pairs in thorough), per-kind failures, hole punch unsupported; the call reports Err, the device stays usable, a healed flush_meta succeeds and the reopened image holds every acknowledged write with no under-count",
    "failed request has no effect; backend heals completely", "5 C17"),
+ "C14": ("exploration", "deterministic enumeration of malformed inputs executed in watchdog-supervised worker sub-processes",
+   "header prefixes of every length, every header field x boundary values singly and in pairs, all feature bits, extension lengths 0..100 and at buffer/cluster ends, backing-name boundaries, every leading L1/L2/reftable entry x 20 bad encodings, corrupted compressed payloads, on 4 base images; open + read/get_mapping/check/write/flush must return Ok or Err: no panic, abort, hang, or allocation out of proportion; unsupported encodings refused at open",
+   "worker isolation + counting allocator; simulated file refuses to grow beyond 64 MiB", "5 C14"),
 }
 NA = {}
 def main():
